@@ -168,13 +168,33 @@ def load_known_findings():
         return json.load(f)
 
 
+class _Findings:
+    """Known findings of one property.  An entry matches a violation signature either exactly
+    (`signature`) or by `signature_regex` (full match) - the regex form is used where one root cause
+    surfaces at one call site under several variable names / outcome pairs.  Matching additionally
+    requires the failing network to contain rows in all `requires_tables`."""
+
+    def __init__(self, entries):
+        import re
+        self.entries = entries
+        self._rx = [(re.compile(e["signature_regex"]), e) for e in entries if e.get("signature_regex")]
+        self._exact = {e["signature"]: e for e in entries if e.get("signature")}
+
+    def get(self, sig):
+        if sig in self._exact:
+            return self._exact[sig]
+        for rx, e in self._rx:
+            if rx.fullmatch(sig):
+                return e
+        return None
+
+    def __getitem__(self, sig):
+        return self.get(sig)
+
+
 def known_findings(prop):
-    """{signature: finding} for one property.  A finding is
-    {property, signature, requires_tables: [...], requires_kw: {...}, what}: it only matches a failing run
-    whose network contains rows in all `requires_tables` (the circumstances the defect needs), so
-    that the same violation class under other circumstances is still reported."""
     kf = load_known_findings()
-    return {e["signature"]: e for e in kf.get("findings", []) if e["property"] == prop}
+    return _Findings([e for e in kf.get("findings", []) if e["property"] == prop])
 
 
 def tables_in_trace(trace):
